@@ -4,7 +4,13 @@ usage: eo_compose.py <automata.json> <P> [--solver-timeout-ms N]  -> JSON on std
 import json, sys, time, itertools
 import z3
 
+SOLVER_TIMEOUT_MS = 600000
+
+
 def main():
+    global SOLVER_TIMEOUT_MS
+    if "--solver-timeout-ms" in sys.argv:
+        SOLVER_TIMEOUT_MS = int(sys.argv[sys.argv.index("--solver-timeout-ms") + 1])
     doc = json.load(open(sys.argv[1]))
     P = int(sys.argv[2])
     A = doc["eo"]
@@ -200,7 +206,7 @@ def main():
     results = {}
     def query(name, extra, expect, allow_hang=False, need_max=True):
         s = z3.Solver()
-        s.set("timeout", 600000)
+        s.set("timeout", SOLVER_TIMEOUT_MS)
         s.add(base)
         if need_max:
             s.add(maximal(allow_hang))
@@ -229,6 +235,21 @@ def main():
     query("T.returns-when-not-cancelled", [z3.Not(X), z3.Not(collector_done)], "unsat")
     query("U.collector-loop-bound", [cutoff], "unsat", need_max=False)
     for wi, (wname, wt) in enumerate(panic_groups.items()):
+        if wname == "negative-waitgroup" and len(wt) > 1:
+            # one query per Done edge (each has its own prefix sum): 4x4x4x4 needs 48 queries of <20 s instead of one that
+            # does not finish in 10 minutes; reported as one result
+            agg = dict(result="unsat", expect="unsat", ok=True, seconds=0.0, subqueries=len(wt))
+            for j, t in enumerate(wt):
+                query("W.tmp", [t], "unsat", need_max=False)
+                r = results.pop("W.tmp")
+                agg["seconds"] = round(agg["seconds"] + r["seconds"], 3)
+                if r["result"] == "sat":
+                    agg.update(result="sat", ok=False, trace=r.get("trace"), cancel=r.get("cancel"))
+                    break
+                if r["result"] != "unsat" and agg["result"] == "unsat":
+                    agg.update(result=r["result"], ok=False)
+            results["W." + wname] = agg
+            continue
         query("W." + wname, [z3.Or(wt) if wt else z3.BoolVal(False)], "unsat", need_max=False)
     # C03, "nodes finishing in any order": every pair of non-root node invocations of different pipelines can be in
     # progress at the same time (so a node may wait for any such node of another pipeline without hanging Send).
